@@ -20,7 +20,7 @@ RULE = ('(A) from power-on, for ROM-only / MBC1 / MBC2 / MBC3 / MBC5 cartridges 
         'distinct case scripts')
 LEVEL_NOTE = ('C06_decoder: all 65,536 addresses of both regenerated decoders by computation.  Plain-memory and '
               'register theorems hold for every history of bus reads, writes and hardware cycles from every state '
-              '(hypotheses: no DMA running / none started for OAM).  Known finding: OBP0/OBP1 bits 0-1 read 0.')
+              '(hypotheses: no DMA running / none started for OAM).  OBP0/OBP1 low bits: repaired defect.')
 ASSUMPTIONS = ['addresses are 16-bit and written values bytes (Mapper.Write takes uint16, uint8)',
                'histories consist of Mapper.Read, Mapper.Write and the hardware half of machine cycles; the OAM '
                'corruption triggered by CPU 16-bit increments is C17\'s subject']
@@ -169,12 +169,6 @@ def nontrivial(cid, lines, impl):
     return None
 
 
-def known_obp(dev):
-    """OBP0/OBP1: the two low bits of the written byte read back as 0 (everything else as written)"""
-    return (dev.get('reg') in ('OBP0', 'OBP1') and dev.get('lastw') is not None and dev['lastw'] & 3 != 0
-            and dev['got'] == dev['lastw'] & 0xFC)
-
-
 def matches_known(k, case, impl, model):
     return False
 
@@ -184,7 +178,7 @@ def spec_deviations(lines, impl):
 
 
 def judge(case, impl, model):
-    devs = [d for d in spec_deviations(case[1], impl) if not known_obp(d)]
+    devs = spec_deviations(case[1], impl)
     if devs:
         return 'implementation violates the statement (AddrSpec): ' + devs[0]['text']
     return ('implementation differs from the model (proved to refine the last-write / register-mask specification) '
@@ -195,28 +189,16 @@ def extra(check, ci, cm, cases):
     """implementation against the specification tables (needed when the decoder obligation fails and the model,
     regenerated from the changed mapper.go, follows the code)"""
     out = []
-    known = [k for k in verifkit.load_known(ID) if k.get('status') == 'known']
-    hits = 0
     for cid, lines in cases:
         impl = ci.get(cid)
         if impl is None:
             continue
-        devs = spec_deviations(lines, impl)
-        bad = []
-        for d in devs:
-            if known_obp(d) and any((k.get('signature') or {}).get('class') == 'obp-low-bits' for k in known):
-                hits += 1
-            else:
-                bad.append(d)
+        bad = spec_deviations(lines, impl)
         if bad and len(out) < 5:
             small = minimise(lines, bad[0])
             out.append(dict(case=cid, script=small, impl=clip(rerun_impl(cid, small) or impl),
                             model=clip(rerun_model(cid, small) or []),
                             verdict='implementation violates the statement (AddrSpec): ' + bad[0]['text']))
-    if hits:
-        for k in known:
-            if (k.get('signature') or {}).get('class') == 'obp-low-bits':
-                print('KNOWN-FINDING: property=%s %s' % (ID, k['text']))
     return out
 
 
@@ -246,7 +228,7 @@ def minimise(lines, dev):
         impl = rerun_impl('m', ls)
         if impl is None:
             return False
-        ds = [d for d in spec_deviations(ls, impl) if not known_obp(d)]
+        ds = spec_deviations(ls, impl)
         return any(d.get('addr') == dev.get('addr') for d in ds)
     cur = list(lines)
     if not still(cur):
